@@ -360,6 +360,13 @@ def rule_forall_key(db: ProgramDB) -> List[Instance]:
     scan(m)
     norm = {"condition": "right", "variable": "left"}
     adds_n = {(norm.get(a, a), norm.get(b, b)) for a, b in adds}
+    ok2 = ("right", "right") in adds_n
+    out.append(inst("FORALL-KEY", HOLDS if ok2 else VIOLATION, m, "ForAll._required_variables_from_child_[condition keyed by its own variables]",
+                    "the rows required from the condition are keyed by every variable of the condition (they are intersected on them)" if ok2 else
+                    "the rows ForAll requires from its condition are not keyed by the condition's own variables: a variable that only "
+                    "the condition mentions (not selected, not used elsewhere) is not part of the duplicate-suppression key, so a "
+                    "disjunction in the condition drops the rows that differ only in it - for_all(u, or_(x.a > u.c, y.a > u.c)) with "
+                    "only x selected loses the y that satisfies the condition for every u"))
     ok = ("right", "left") in adds_n
     out.append(inst("FORALL-KEY", HOLDS if ok else VIOLATION, m, "ForAll._required_variables_from_child_[condition keyed by universal variable]",
                     "the rows required from the condition are keyed by the universal variable as well" if ok else
@@ -378,18 +385,51 @@ def rule_forall_nonliteral(db: ProgramDB) -> List[Instance]:
     m = fa.lookup("condition_unique_variable_ids")
     if m is None:
         raise AnalysisError("ForAll.condition_unique_variable_ids not found")
-    src_nodes = [n for n in own_nodes(m.node) if isinstance(n, ast.Call) and dotted(n.func) == "isinstance"]
-    excl = any(len(c.args) == 2 and unparse(c.args[1]).endswith("Literal") and isinstance(c.args[0], ast.Attribute)
-               and c.args[0].attr == "value" for c in src_nodes)
-    # negated? `if not isinstance(v.value, Literal)` or filter(lambda v: not isinstance(...))
-    neg = any(isinstance(n, ast.UnaryOp) and isinstance(n.op, ast.Not) and isinstance(n.operand, ast.Call)
-              and dotted(n.operand.func) == "isinstance" for n in own_nodes(m.node))
-    ok = excl and neg
-    out.append(inst("FORALL-NONLITERAL", HOLDS if ok else VIOLATION, m, "ForAll.condition_unique_variable_ids[literals excluded]",
-                    "the rows of different universal values are compared on the non-universal, non-literal variables only" if ok else
-                    "literal pseudo-variables are part of the key the rows of different universal values are compared on: a "
-                    "row produced by another branch of the condition, or replayed from a cache, does not carry them and "
-                    "falls out of the intersection"))
+    from ..boolexpr import eval_bool, guards_of
+
+    def included(kind: str) -> bool:
+        """is an element of this kind ('literal' | 'predicate' | 'plain') kept in the key?"""
+        def atom(e):
+            if isinstance(e, ast.Call) and dotted(e.func) == "isinstance" and len(e.args) == 2:
+                if unparse(e.args[1]).endswith("Literal") and isinstance(e.args[0], ast.Attribute) and e.args[0].attr == "value":
+                    return "L"
+                return "other:" + unparse(e)
+            if any(isinstance(x, ast.Attribute) and x.attr == "_predicate_type_" for x in ast.walk(e)) or \
+                    any(isinstance(x, ast.Constant) and x.value == "_predicate_type_" for x in ast.walk(e)):
+                if isinstance(e, (ast.Attribute, ast.Call)):
+                    return "P"
+            return None
+        env = {"L": kind == "literal", "P": kind == "predicate"}
+        comps = [n for n in own_nodes(m.node) if isinstance(n, (ast.ListComp, ast.GeneratorExp, ast.SetComp))]
+        if comps:
+            c = comps[0]
+            return all(bool(eval_bool(t, atom, env)) for g in c.generators for t in g.ifs)
+        loops = [n for n in own_nodes(m.node) if isinstance(n, ast.For)]
+        for loop in loops:
+            apps = [st for st in ast.walk(loop) if isinstance(st, ast.Expr) and isinstance(st.value, ast.Call)
+                    and call_attr(st.value) in ("append", "add")]
+            for st in apps:
+                g = guards_of(st, loop.body) or []
+                return all(bool(eval_bool(t, atom, env)) == pol for t, pol in g)
+        raise AnalysisError("condition_unique_variable_ids: neither a comprehension nor an accumulating loop")
+    for kind, why in (("literal", "a literal is bound or not depending on the branch / cache that produced the row"),
+                      ("predicate", "the result of a predicate is determined by its arguments and differs per universal value: "
+                                    "for_all(c, f(c)) with a predicate that returns different truthy values yields nothing")):
+        try:
+            inc = included(kind)
+        except AnalysisError as e:
+            out.append(inst("FORALL-NONLITERAL", UNDECIDED, m, f"ForAll.condition_unique_variable_ids[{kind}s excluded]", str(e)))
+            continue
+        out.append(inst("FORALL-NONLITERAL", VIOLATION if inc else HOLDS, m, f"ForAll.condition_unique_variable_ids[{kind}s excluded]",
+                        f"{kind} pseudo-variables are not part of the key the rows of different universal values are compared on" if not inc else
+                        f"{kind} pseudo-variables are part of the key the rows of different universal values are compared on: {why}"))
+    try:
+        plain = included("plain")
+    except AnalysisError:
+        plain = True
+    if not plain:
+        out.append(inst("FORALL-NONLITERAL", VIOLATION, m, "ForAll.condition_unique_variable_ids[plain variables kept]",
+                        "ordinary variables are excluded from the key as well: rows are then compared on nothing"))
     # siblings (informational cross-check)
     for q in ("symbolic:BinaryOperator.__post_init__", "symbolic:LogicalOperator.__post_init__", "symbolic:_optimize_or",
               "conclusion_selector:ConclusionSelector.update_conclusion"):
